@@ -48,7 +48,7 @@ theorem valid_only_if (cfg : Cfg) (P : Crypto) (E : Env) (au : Bool) (at_ : Opti
     cases hf : c.format with
     | ld =>
       simp only [hf] at hsv
-      obtain ⟨_, p, k, hp, _, hb, ha, _, hs, hv⟩ := hsv
+      obtain ⟨_, _, p, k, hp, _, hb, ha, _, hs, hv⟩ := hsv
       exact ⟨p, k, hp, hb, ha, hs, (proofValidAt_iff cfg p _).mp hv⟩
     | jwt =>
       simp only [hf] at hsv
@@ -99,6 +99,7 @@ def doVerifyVPReturnsSrc : List (String × String) :=
 
 def jsonldProofReturnsSrc : List (String × String) :=
   [ ("-marshal", "signedDocument,err := proof.NewSignedDocument(documentToVerify); err != nil => newVerificationError(\"invalid LD-JSON document: %w\",err)"),
+    ("ld:no-case-variant-member", "member := caseVariantMember(signedDocument,documentToVerify); member != \"\" => newVerificationError(\"invalid LD-JSON document: member '%s' only differs by case from a known member\",member)"),
     ("ld:proof-decodes", "err = signedDocument.UnmarshalProofValue(&ldProof); err != nil => newVerificationError(\"unsupported proof type: %w\",err)"),
     ("ld:proof-present", "verificationMethod == \"\" => newVerificationError(\"missing proof\")"),
     ("ld:vm-of-issuer", "verificationMethodIssuer == \"\" || verificationMethodIssuer != issuer => errVerificationMethodNotOfIssuer"),
